@@ -366,4 +366,186 @@ theorem aCopyTo_keepsAtDyn (a src : AMgr) {offS : Bool} (hsrc : AInv offS src) (
   exact keepsAtDyn_of a hi (C09_copy_bdd_transparent (hext a) src.m.tbl hsrc.inv.wf.toWF hsrc.order
     a.m hi.minv.dynInv u hmem (hpre u hu'))
 
+/-! ### `apply` with a quantifier alias, `let` with `Function` values, `declare` — reordering
+possibly enabled -/
+
+theorem varsOK_of_orderOK {t : Tbl} (h : OrderOK t) : VarsOK t := by
+  refine ⟨h.total, fun i j hi hj he => ?_⟩
+  obtain ⟨v, hv⟩ := h.total i hi
+  obtain ⟨w, hw⟩ := h.total j hj
+  have e1 : t.nameOf i = v := by simp [Tbl.nameOf, hv]
+  have e2 : t.nameOf j = w := by simp [Tbl.nameOf, hw]
+  rw [e1, e2] at he
+  subst he
+  have a := (h.inv v i).mpr hv
+  have b := (h.inv v j).mpr hw
+  rw [a] at b
+  cases b; rfl
+
+/-- `support(u)` of a stored node succeeds and returns declared names -/
+theorem support_declared (m : Mgr) (hI : Inv m) (hO : OrderOK m.tbl) (u : Int) (hu : m.tbl.Mem u) :
+    ∃ names, support m.tbl u = .ok names ∧ ∀ s ∈ names, m.tbl.vars.contains s = true := by
+  obtain ⟨ls, _, _, hdep, hs⟩ := support_spec' hI.wf (varsOK_of_orderOK hO) u hu
+  refine ⟨_, hs, fun s hs' => ?_⟩
+  obtain ⟨i, hi, rfl⟩ := List.mem_map.mp hs'
+  have hlt : i < m.tbl.nvars := dependsOn_lt_nvars hI.wf hu ((hdep i).mp hi)
+  have hl := (varsOK_of_orderOK hO).l2v_eq hlt
+  have hv := (hO.inv _ i).mpr hl
+  rw [TreeMap.contains_eq_isSome_getElem?, hv]; rfl
+
+/-- `apply('\A' | '\E' | 'forall' | 'exists', u, v)`: `v` is quantified over the support of `u` -/
+theorem aApply_quant_keepsAtDyn (a : AMgr) (op : String) (c : Conn) (hc : docConn op = some c)
+    (hq : c = .forall_ ∨ c = .exists_) (hall : Gen.allOps.contains op = true) (hu hv h : Nat) :
+    AKeepsAt false a h (aApply op hu (some hv) none h) := by
+  intro hi
+  revert hi
+  unfold aApply
+  intro hi
+  refine AKeepsAt.bind_read a (nodeIn_read hu) (fun u h1 => ?_) hi
+  refine AKeepsAt.bind_read a (ARead.check _ _) (fun _ _ => ?_)
+  refine AKeepsAt.bind_read a (optNode_read nodeIn_read _) (fun vo h3 => ?_)
+  refine AKeepsAt.bind_read a (optNode_read nodeIn_read _) (fun wo h4 => ?_)
+  obtain ⟨v, rfl, hvh⟩ := optNode_some_handle hv a vo h3
+  have := optNode_none_val a wo nodeIn h4
+  subst this
+  have hmu : a.m.tbl.Mem u := hi.hmem hu u (nodeIn_handle hu a u h1)
+  obtain ⟨names, hsupp, hdecl⟩ := support_declared a.m hi.inv hi.order u hmu
+  exact wrapResult_keepsAt a (keepsAtDyn_of a hi
+    (C09_apply_quant_transparent (hext a) a.m hi.minv.dynInv op c hc hq hall u v hmu
+      (heldX_of_handle a hvh) names hsupp hdecl)) h
+
+/-- the values of `let` that are `Function`s of this manager -/
+theorem nodesAny_own (a : AMgr) : ∀ (d : List (String × Nat)) (l : List (String × Int)),
+    (∀ p ∈ d, ∃ v, a.handles[p.2]? = some v) → (nodesAny d a).1 = .ok l →
+    l.map (·.1) = d.map (·.1) ∧ ∀ p ∈ l, HeldX (hext a) p.2
+  | [], l, _, h => by
+    change (Except.ok [] : Except Err (List (String × Int))) = .ok l at h
+    cases h
+    exact ⟨rfl, fun p hp => nomatch hp⟩
+  | (k, hv) :: rest, l, hown, h => by
+    unfold nodesAny at h
+    change (AM.bind' (nodeAny hv) _ a).1 = _ at h
+    unfold AM.bind' at h
+    have hr := nodeAny_read hv a
+    obtain ⟨v, hvh⟩ := hown (k, hv) List.mem_cons_self
+    have hx : nodeAny hv a = (.ok v, a) := by unfold nodeAny; rw [hvh]
+    rw [hx] at h
+    simp only at h
+    change (AM.bind' (nodesAny rest) _ a).1 = _ at h
+    unfold AM.bind' at h
+    have hr2 := nodesAny_read rest a
+    cases hx2 : nodesAny rest a with
+    | mk r2 a2 =>
+      rw [hx2] at h hr2
+      simp only at hr2
+      subst hr2
+      cases r2 with
+      | error e => simp only at h; cases h
+      | ok l' =>
+        simp only at h
+        change (Except.ok ((k, v) :: l') : Except Err (List (String × Int))) = .ok l at h
+        cases h
+        obtain ⟨e1, e2⟩ := nodesAny_own a2 rest l'
+          (fun p hp => hown p (List.mem_cons_of_mem _ hp)) (by rw [hx2])
+        refine ⟨by simp [e1], fun p hp => ?_⟩
+        rcases List.mem_cons.mp hp with rfl | hp'
+        · exact heldX_of_handle a2 hvh
+        · exact e2 p hp'
+
+/-- `let` with `Function` values of this manager, declared names -/
+theorem aLet_funs_keepsAtDyn (a : AMgr) (d : List (String × Nat)) (hne : d ≠ [])
+    (hdecl : ∀ p ∈ d, a.m.tbl.vars.contains p.1 = true)
+    (hown : ∀ p ∈ d, ∃ v, a.handles[p.2]? = some v) (hu h : Nat) :
+    AKeepsAt false a h (aLet (.funs d) hu h) := by
+  intro hi
+  revert hi
+  unfold aLet
+  intro hi
+  refine AKeepsAt.bind_read a (nodeIn_read hu) (fun u h1 => ?_) hi
+  have hemp : (ALetArg.funs d).isEmpty = false := by
+    cases d with
+    | nil => exact absurd rfl hne
+    | cons x xs => rfl
+  rw [hemp]
+  simp only [Bool.false_eq_true, if_false]
+  refine AKeepsAt.bind_read a (aLetArgs_read _) (fun d' hd' => ?_)
+  -- `d'` is `.refs l` for the nodes of the handles
+  have hd'' : ∃ l, d' = LetArg.refs l ∧ (nodesAny d a).1 = .ok l := by
+    unfold aLetArgs at hd'
+    change (AM.bind' (nodesAny d) _ a).1 = _ at hd'
+    unfold AM.bind' at hd'
+    have hr := nodesAny_read d a
+    cases hx : nodesAny d a with
+    | mk r1 a1 =>
+      rw [hx] at hd' hr
+      simp only at hr
+      subst hr
+      cases r1 with
+      | error e => simp only at hd'; cases hd'
+      | ok l =>
+        simp only at hd'
+        change (Except.ok (LetArg.refs l) : Except Err LetArg) = .ok d' at hd'
+        cases hd'
+        exact ⟨l, rfl, rfl⟩
+  obtain ⟨l, rfl, hl⟩ := hd''
+  obtain ⟨hk, hheld⟩ := nodesAny_own a d l hown hl
+  have hlne : l ≠ [] := by
+    intro h0
+    rw [h0] at hk
+    cases d with
+    | nil => exact hne rfl
+    | cons x xs => simp at hk
+  have hldecl : ∀ p ∈ l, a.m.tbl.vars.contains p.1 = true := by
+    intro p hp
+    have : p.1 ∈ l.map (·.1) := List.mem_map.mpr ⟨p, hp, rfl⟩
+    rw [hk] at this
+    obtain ⟨q, hq, hq1⟩ := List.mem_map.mp this
+    rw [← hq1]; exact hdecl q hq
+  refine fun hi' => (AKeepsAt.then_read' a (wrapResult_keepsAt a (keepsAtDyn_of a hi
+    ((C09_let_transparent (hext a) a.m hi.minv.dynInv u
+      (heldX_of_handle a (nodeIn_handle hu a u h1))).2.1 l hlne hldecl hheld)) h)
+    fun _ => ARead.pure _) hi'
+
+/-- sequencing of core operations, one start state -/
+theorem CoreKeepsAt.bind {off : Bool} {α β : Type} {x : M α} {f : α → M β} {m : Mgr}
+    (hx : CoreKeepsAt off m x)
+    (hf : ∀ v m1, x m = (.ok v, m1) → CoreKeepsAt off m1 (f v)) : CoreKeepsAt off m (x >>= f) := by
+  intro ext hm r m' he
+  have e : (x >>= f) m = M.bind' x f m := rfl
+  rw [e] at he
+  unfold M.bind' at he
+  cases hxm : x m with
+  | mk r1 m1 =>
+    rw [hxm] at he
+    obtain ⟨i1, h1⟩ := hx ext hm r1 m1 hxm
+    cases r1 with
+    | error e' => simp only at he; cases he; exact ⟨i1, h1⟩
+    | ok v =>
+      simp only at he
+      obtain ⟨i2, h2⟩ := hf v m1 hxm ext i1 r m' he
+      exact ⟨i2, h1.trans h2⟩
+
+theorem CoreKeepsAt.pure {off : Bool} {α : Type} (v : α) (m : Mgr) : CoreKeepsAt off m (pure v : M α) := by
+  intro ext hm r m' he
+  cases he
+  exact ⟨hm, HeldExt.refl _ _⟩
+
+/-- `declare(*names)` in EVERY mode (`add_var` never reorders) -/
+theorem declare_keeps {off : Bool} (names : List String) : CoreKeeps off (declare names) := by
+  refine ⟨fun m => ?_⟩
+  unfold declare
+  refine CoreKeepsAt.bind ?_ (fun _ m1 _ => CoreKeepsAt.pure _ m1)
+  induction names generalizing m with
+  | nil => exact CoreKeepsAt.pure _ m
+  | cons v rest ih =>
+    rw [List.forIn_cons]
+    refine CoreKeepsAt.bind (CoreKeepsAt.bind (addVar_keepsAt m v none (fun l hl => nomatch hl))
+      (fun _ m1 _ => CoreKeepsAt.pure _ m1)) (fun s m1 _ => ?_)
+    cases s with
+    | done b => exact CoreKeepsAt.pure _ m1
+    | yield b => exact ih m1
+
+theorem aDeclare_keepsAll {off : Bool} (ns : List String) (h : Nat) : AKeeps off h (aDeclare ns) :=
+  aDeclare_keeps ns (declare_keeps ns) h
+
 end DD
